@@ -51,3 +51,22 @@ Theorem C02_pipeline_generic : forall F ev source sc db0 src t subqs,
   forall r, run_pipeline F ev source sc db0 t = Some r -> eval_statement F ev source db0 subqs = Some r.
 Proof. exact split_queries_denotes_pipeline. Qed.
 Print Assumptions C02_pipeline_generic.
+
+(** ** the printed text denotes the subqueries (token level) *)
+From PQL Require Import Spec.SqlRead Proofs.ReadBack Proofs.ReadBackStmt Proofs.SubqWf.
+
+(** What Compile prints for a program without parameters, viewed as SQL tokens, is read by the
+    reference statement reader (coq/Spec/SqlRead.v; the dialect's precedence for every
+    expression) as exactly the subqueries [split_queries] made of the query -- the very objects
+    whose evaluation the semantic theorem above proves equal to the pipeline's meaning -- with
+    every let-bound name replaced by the tree of its value.  Together: text -> subqueries ->
+    meaning, for every program whose expressions the parser could build. *)
+Theorem C02_compiled_program_rereads : forall source ss ps, stmts_wf ss -> compile_stmts source [] ss = Ok ps ->
+  exists sc t subs q rctes,
+    stmt_loop [] None ss = Ok (sc, Some t) /\ split_queries sc [] t = Ok subs /\ rev subs = q :: rctes /\
+    let '(names, vals) := let_vals [] (fun _ => XWord []) false ss in
+    exists ts, ptoks ps = Some ts /\
+      Conv (fun fx => read_stmt fx ts)
+           (map (fun s => (sq_name s, den_select source sc vals s)) (rev rctes), den_select source sc vals q).
+Proof. exact compiled_program_rereads. Qed.
+Print Assumptions C02_compiled_program_rereads.
